@@ -51,8 +51,15 @@ fn parses(text: &str) -> bool {
 fn gen_config(rng: &mut Rng) -> (Option<String>, Vec<String>, &'static str) {
     let codes = ["undeclared-fixture", "scope-mismatch", "circular-dependency"];
     let mut listed: Vec<String> = codes.iter().filter(|_| rng.chance(400)).map(|s| s.to_string()).collect();
-    match rng.below(9) {
+    match rng.below(10) {
         0 | 1 => (None, vec![], "absent"),
+        9 => {
+            // partially invalid: entries / settings of the wrong TYPE next to valid ones
+            let mut items: Vec<String> = listed.iter().map(|c| format!("{:?}", c)).collect();
+            items.insert(rng.below(items.len() + 1), rng.pick(&["42", "true", "[\"scope-mismatch\"]", "1.5"]).to_string());
+            let other = rng.pick(&["exclude = \"build\"\n", "skip_plugins = 7\n", "fixture_paths = [1, 2]\n", ""]).to_string();
+            (Some(format!("[tool.pytest-language-server]\n{}disabled_diagnostics = [{}]\n", other, items.join(", "))), listed, "wrong-typed-entries")
+        }
         8 => {
             // repeated and unknown entries: the list is a set of codes, its length means nothing
             if listed.is_empty() {
